@@ -937,10 +937,10 @@ let props_of_step (label : sx) (pre : istate) (crashed : bool) : string =
     | A "rec" :: A "tx" :: i :: _ ->
       (* the transaction controller next to a failed predecessor: C11's "later transactions still proceed" *)
       (match List.assoc_opt (inum i - 1) (txs_of pre.w) with
-       | Some tp when tp.t_state = TFailed -> [ "C01"; "C05"; "C09"; "C11" ]
-       | _ -> [ "C01"; "C05"; "C09" ])
+       | Some tp when tp.t_state = TFailed -> [ "C01"; "C02"; "C05"; "C09"; "C11" ]
+       | _ -> [ "C01"; "C02"; "C05"; "C09" ])
     | A "rec" :: A "master" :: _ | A "rec" :: A "conn" :: _ -> [ "C10" ]
-    | A "rec" :: A "cfg" :: _ -> [ "C04"; "C10" ]
+    | A "rec" :: A "cfg" :: _ -> [ "C04"; "C10"; "C11" ]  (* C11: a pending change is applied once the target is synchronised again *)
     | [ A "rec"; A "prop"; t; i; _; _ ] ->
       (match List.assoc_opt (inum t, inum i) (props_of pre.w) with
        | Some p when p.p_apply <> None -> [ "C02"; "C04"; "C10"; "C11" ]
